@@ -48,6 +48,7 @@ fn main() {
         "replay" => driver::replay_main(&mut all, &args[2]),
         "c12-sweep" => c12::sweep(&args[2], &args[3], args[4].parse().unwrap()),
         "miri" => c20::miri_main(&args[2..]),
+        "miri-c18" => c18::miri_main(&args[2..]),
         _ => driver::harness_error("unknown command"),
     }
 }
